@@ -14,12 +14,14 @@ Tie: T-diff, three streams on every run
   sem     : a Go reference netfilter interpreter over that REAL text vs the Lean semantics over the
             Lean-compiled rules, on boundary packets (validates Netfilter.lean by N-version);
   packets : the same interpreter over the REAL text vs the Lean *spec* (`specFate`: the capture
-            policy stated on configuration and packet, no rules involved).
+            policy stated on configuration and packet, no rules involved);
+  cleanup : the REAL Run with CleanupOnly against an in-memory iptables holding the configuration's own rules
+            vs the Lean cleanup model (Cleanup.lean): rules and chains left per family.
 On break: harness `oracle` states the property's clauses in Go directly on the real rule text.
 """
 import os
 
-THEOREMS = ["IstioModel.C20.Theorems"]
+THEOREMS = ["IstioModel.C20.Theorems", "IstioModel.C20.CleanupTheorems"]
 STREAMS = ("rules", "env", "cmd", "sem", "packets")
 
 
@@ -85,6 +87,26 @@ def oracle(ctx, stream, case_lines, rep):
                 return ("c20:" + _clause_class(cfg, v),
                         "the real istio-iptables code violates clause '%s' (oracle on the real output)" % v.split()[1],
                         {"stream": st, "ops": case, "oracle_verdict": v, "correspondence": rep})
+    return None
+
+
+def oracle_cleanup(ctx, stream, case_lines, rep):
+    """Stream cleanup disagrees with the Lean cleanup model: judge the case with the apply stream's clauses
+    (CleanupOnly over the configuration's own rules: nothing may be left but the registered jump-target-only class)."""
+    cfg = next((l for l in case_lines if l.startswith("cfg ")), None)
+    if not cfg:
+        return None
+    p = os.path.join(ctx.work, "cleanup.oracle.ops")
+    with open(p, "w") as f:
+        f.write("\n".join(["case 0 apply", cfg, cfg, "apply same 0 0 1 0 ok"]) + "\n")
+    out = p + ".verdict"
+    rc, log = ctx.harness("oracle", "apply", p, out)
+    for v in (ctx.read_lines(out) if rc == 0 and os.path.exists(out) else []):
+        if v.startswith("FAIL"):
+            clause = v.split()[1]
+            return ("c20:%s:prior=same+cleanup=true" % clause,
+                    "CleanupOnly over the configuration's own rules violates clause '%s' on the real code" % clause,
+                    {"stream": "cleanup", "ops": case_lines, "oracle_verdict": v, "correspondence": rep})
     return None
 
 
@@ -401,7 +423,8 @@ def run(ctx):
         "passes such tokens through to iptables unvalidated; the model answers `unmodelled`)",
         "stream cmd runs the real command always with --dry-run (nothing may touch the machine's tables); the real-dependencies branch of "
         "ProgramIptables and Run's deferred iptables-save are not exercised",
-        "stream apply has no Lean model: VerifyIptablesState, the guardrail / check / cleanup builders, GetStateFromSave and "
+        "stream apply has no Lean model except for the cleanup step (Cleanup.lean: buildCleanupRules / UndoRules over tables holding the "
+        "configuration's own rules, tied by stream cleanup): VerifyIptablesState, the guardrail / check builders, GetStateFromSave and "
         "HasIstioLeftovers run under Go oracle clauses only, against the in-memory iptables of sim.go; configurations without any proxy "
         "identity are generated there too (reachable with --proxy-uid=, --proxy-gid=,) and their CleanupOnly leftover is the recorded, "
         "cause-keyed class c20:cleanup-leaves-jump-target-only-chain",
@@ -429,6 +452,9 @@ def run(ctx):
     ctx.diff_stream("cmd", ctx.n(400, 4000), oracle=oracle, nontrivial=lambda o, r: len(r) > 1 and (r[1].startswith("ok") or r[1] == "refused"))
     ctx.diff_stream("sem", ctx.n(2000, 25000), oracle=oracle, nontrivial=_nontrivial)
     ctx.diff_stream("packets", ctx.n(4000, 60000), oracle=oracle, nontrivial=_nontrivial)
+    # CleanupOnly over the configuration's own rules: the real Run against the in-memory iptables vs the Lean cleanup
+    # model (Cleanup.lean; `cleanup_residue_exact`: what is left is exactly the jump-target-only chains)
+    ctx.diff_stream("cleanup", ctx.n(1500, 15000), oracle=oracle_cleanup, nontrivial=_nontrivial)
     _oracle_all(ctx)
     _apply_stream(ctx)
     _observations(ctx)
@@ -539,7 +565,8 @@ MANIFEST = {
                    "delivery_not_looped (two genuine delivery loops through the call-to-self redirect are proved as witnesses and "
                    "reproduced on the real rule text), lo_journey_never_loops "
                    "(never loop across the OUTPUT and PREROUTING hooks), rulesOf_wellFormed, v4_v6_same_policy, "
-                   "proxy DNS not re-captured. The model is tied to /repo on every run: the real Run() output must equal the Lean "
+                   "proxy DNS not re-captured; cleanup_residue_exact (CleanupOnly over the configuration's own rules leaves exactly the "
+                   "declared chains that own no rule - the registered class, nothing else). The model is tied to /repo on every run: the real Run() output must equal the Lean "
                    "compiler's output line for line, and a Go reference interpreter over the real rule text must agree with both the "
                    "Lean semantics and the Lean policy on boundary packets; a Go oracle states the clauses directly on the real rules."),
     "level_note": ("Trusted: Lean kernel + {propext, Classical.choice, Quot.sound}; the hand-written compiler model (tied by line-equality "
@@ -553,7 +580,10 @@ MANIFEST = {
                    "inbound excludes ignored with an explicit list, 2nd proxy UID shadowed, GID block lacks the DNS variant, TPROXY "
                    "mode does not exempt the tunnel port) are proved as witnesses and replayed on the real rule text. Two GENUINE delivery loops "
                    "(c20:gid-dns53-delivery-loop, c20:loopback-included-delivery-loop; not fixable without editing golden files) are "
-                   "registered as known findings and reproduced on every run."),
+                   "registered as known findings and reproduced on every run; so are c20:cleanup-leaves-jump-target-only-chain (proved to be the "
+                   "exact residue of CleanupOnly in the Lean cleanup model, tied by stream cleanup) and c20:owner-groups-over-argc-limit "
+                   "(50..64 owner groups pass Validate, iptables-restore refuses the line; rulesOf_wellFormed needs <= 49), both recognised "
+                   "by their cause only. VerifyIptablesState / guardrails / Reconcile guards: Go oracle clauses on an in-memory iptables, no Lean model."),
     "technique": "Lean 4 compiler-correctness theorems (capture configuration -> iptables rules -> netfilter semantics) + differential correspondence with the real Go compiler",
     "design_ref": "DESIGN.md section 5 C20",
 }
